@@ -67,6 +67,14 @@ TYPES = dict([(n, I(n)) for n in INTS] + [
     ("set_tup", Set(Tup(i32, B))), ("set_opt", Set(Opt(i32))), ("set_rev", Set(Rev(i32))), ("set_dual_tup", Set(Tup(Dual(i32), B))),
     ("prod_set_tup", Prod(Set(Tup(B, B)), B)),
     ("cp_i32", CP(i32)), ("cp_bool", CP(B)), ("cp_set", CP(SET)), ("cp_cp", CP(CP(B))), ("cp_rev", Rev(CP(i32))),
+    # tuple lattices (tuple.rs: join_mut / meet_mut through Ord::cmp of the tuple, hence of every component type) with Dual / Reverse /
+    # Option components at every position, nested, and the wrappers / containers around such tuples
+    ("tup_du", Tup(Dual(i32), i32)), ("tup_ud", Tup(i32, Dual(i32))), ("tup_dd", Tup(Dual(i32), Dual(B))), ("tup_ru", Tup(Rev(i32), B)),
+    ("tup_od", Tup(Opt(i32), Dual(B))), ("tup_udu", Tup(B, Dual(i32), i32)), ("tup_dud", Tup(Dual(B), i32, Dual(i32))),
+    ("tup_nest_d", Tup(Tup(Dual(i32), B), Rev(B))), ("dual_tup", Dual(Tup(i32, B))), ("dual_tup_d", Dual(Tup(Dual(i32), B))),
+    ("rev_tup_d", Rev(Tup(B, Dual(i32)))), ("opt_tup_d", Opt(Tup(Dual(i32), B))), ("ord_tup_d", Ord(Tup(Dual(i32), i32))),
+    ("ord_dual", Ord(Dual(i32))), ("rc_tup_d", Rc(Tup(Dual(i32), B))), ("box_tup_d", Box(Tup(B, Dual(i32)))), ("set_dual", Set(Dual(i32))),
+    ("prod_tup_d", Prod(Tup(Dual(i32), B), i32)), ("arr_tup_d", Arr(2, Tup(Dual(i32), B))),
 ])
 WRAP = {"rc": "alloc::rc::Rc", "arc": "alloc::sync::Arc", "box": "alloc::boxed::Box", "rev": "core::cmp::Reverse",
         "dual": "ascent_base::lattice::dual::Dual", "ord": "ascent_base::lattice::ord_lattice::OrdLattice",
@@ -562,6 +570,8 @@ def case_line(c):
         return "2 %s %s %s" % (c["tag"], c["a"], c["b"])
     if c["mode"] == "3":
         return "3 %s %s %s %s" % (c["tag"], c["a"], c["b"], c["c"])
+    if c["mode"] == "O":
+        return "O %s %s %s" % (c["tag"], c["a"], c["b"])
     return "B %s" % c["tag"]
 
 
@@ -588,6 +598,54 @@ def parse_triple(t, line):
     f = [x.strip() for x in line.split(";")]
     assert len(f) == 7, line
     return dict(jl=dec_all(t, f[0]), jr=dec_all(t, f[1]), ml=dec_all(t, f[2]), mr=dec_all(t, f[3]), ab=f[4], bc=f[5], ac=f[6])
+
+
+ORD_PRELUDE = PRELUDE + "From AV Require Import Lattice.LatOrdOps.\n"
+
+
+def parse_ord(t, line):
+    """mode O: cmp(a,b) ; cmp(b,a) ; max ; min ; sort_by(cmp) ; sort() ; BTreeSet order ; binary_search(b) ; max_by(cmp) ; a.clamp(lo, hi)"""
+    if line.strip() in ("panic", "-"):
+        return line.strip()
+    f = [x.strip() for x in line.split(";")]
+    assert len(f) == 10, line
+    lst = lambda x: [dec_all(t, y) for y in x.split("|")]
+    return dict(cab=f[0], cba=f[1], omax=dec_all(t, f[2]), omin=dec_all(t, f[3]), sortby=lst(f[4]), sort=lst(f[5]), bts=lst(f[6]), bs=f[7],
+                maxby=dec_all(t, f[8]), clamp=dec_all(t, f[9]))
+
+
+def check_ord(t, a, b, r):
+    """every consumer of Ord answers what the order of the type (PartialOrd, total on these types) says"""
+    if r == "panic":
+        return [("no-panic", "a consumer of Ord panicked (clamp asserts lo <= hi on the pair sorted by cmp)")]
+    if r == "-":
+        return [("table", "harness says not Ord, table says Ord")]
+    bad = []
+    sj, sm, spc = s_join(t, a, b), s_join(t, a, b, True), s_pcmp(t, a, b)
+    if r["cab"] != spc or r["cba"] != FLIP[spc]:
+        bad.append(("cmp-is-the-order", "cmp(a,b) = %s cmp(b,a) = %s, the order says %s" % (r["cab"], r["cba"], spc)))
+    if r["omax"] != sj or r["omin"] != sm or r["maxby"] != sj:
+        bad.append(("max-min-are-join-meet", "Ord::max = %s Ord::min = %s max_by(cmp) = %s, join = %s meet = %s" % (r["omax"], r["omin"], r["maxby"], sj, sm)))
+    if r["sortby"] != [sm, sj] or r["sort"] != [sm, sj]:
+        bad.append(("sort-is-the-order", "sort_by(cmp) = %s sort() = %s, expected %s" % (r["sortby"], r["sort"], [sm, sj])))
+    if r["bts"] != ([a] if a == b else [sm, sj]):
+        bad.append(("btreeset-is-the-order", "BTreeSet::from([a, b]) iterates %s" % (r["bts"],)))
+    if r["bs"] == "!" or [sm, sj][int(r["bs"])] != b:
+        bad.append(("binary_search-finds", "[a, b] sorted by cmp, binary_search(b) = %s" % r["bs"]))
+    if r["clamp"] != a:
+        bad.append(("clamp", "a.clamp(lo, hi) = %s for the pair sorted by cmp" % (r["clamp"],)))
+    return bad
+
+
+def from_coq_ord(t, v):
+    """Some (OR cab cba max min (x, y) [..]) of Lattice/LatOrdOps.v"""
+    if v == "None":
+        return None
+    assert v[0] == "Some" and v[1][0] == "OR" and len(v[1]) == 7, v
+    _, cab, cba, mx, mn, srt, st = v[1]
+    x, y = fst_snd(srt)
+    c = {"Lt": "L", "Eq": "E", "Gt": "G"}
+    return dict(cab=c[cab], cba=c[cba], omax=from_coq(t, mx), omin=from_coq(t, mn), sortby=[from_coq(t, x), from_coq(t, y)], bts=[from_coq(t, z) for z in st])
 
 
 def ops_of(pc):
@@ -677,11 +735,13 @@ def tie(tier, seed, replay):
     # --- cases
     tables, triple_cases, extra_cases = {}, [], []
     if replay:
-        extra_cases = [c for c in [json.load(open(replay))["case"]] if c.get("mode") in ("2", "3")]
+        extra_cases = [c for c in [json.load(open(replay))["case"]] if c.get("mode") in ("2", "3", "O")]
     else:
         cp = os.path.join(lib.VERIF, "corpus", "C16.jsonl")
         extra_cases = [json.loads(l) for l in open(cp) if l.strip()] if os.path.exists(cp) else []
         tables, triple_cases = gen_tables(tier, seed)
+    o_cases = [c for c in extra_cases if c["mode"] == "O"]
+    extra_cases = [c for c in extra_cases if c["mode"] != "O"]
     cases = list(extra_cases) + triple_cases
     for tag, vals in tables.items():
         t = TYPES[tag]
@@ -770,16 +830,56 @@ def tie(tier, seed, replay):
             law, detail = bad[0]
             mism.append(dict(case=c, impl=r, model=None, spec=None, kind="impl_violates_spec", known=known_class(c["tag"], law),
                              what="%s: law %s fails for a = %s, b = %s, c = %s: %s" % (rust_name(t), law, c["a"], c["b"], c["c"], detail)))
+    # --- the consumers of Ord (mode O) on every type that implements it: every ordered pair over a sub-carrier
+    ocap = 12 if tier == "quick" else 40
+    for tag, vals in tables.items():
+        t = TYPES[tag]
+        if s_has_ord(t):
+            es = [" ".join(enc(t, v)) for v in vals[:ocap]]
+            o_cases += [dict(mode="O", tag=tag, a=ea, b=eb) for ea in es for eb in es]
+    o_lines = lib.ds_run(binary, "lat", [case_line(c) for c in o_cases]) if o_cases else []
+    o_bytag = {}
+    for c, l in zip(o_cases, o_lines):
+        t = TYPES[c["tag"]]
+        o_bytag.setdefault(c["tag"], []).append((c, dec_all(t, c["a"]), dec_all(t, c["b"]), parse_ord(t, l)))
+    o_exprs, o_index = [], []
+    for tag, rows_ in o_bytag.items():
+        t = TYPES[tag]
+        for i in range(0, len(rows_), 300):
+            ch = rows_[i:i + 300]
+            o_exprs.append("ord_rows (denote %s) [%s]" % (coq_ty(t), "; ".join("(%s, %s)" % (coq_val(t, a), coq_val(t, b)) for _, a, b, _ in ch)))
+            o_index.append((tag, ch))
+    o_model = lib.coq_eval(PROP + "o", ORD_PRELUDE, o_exprs, per_shard=max(1, len(o_exprs) // (3 * lib.NCPU))) if o_exprs else []
+    nord = 0
+    for (tag, ch), ms in zip(o_index, o_model):
+        t = TYPES[tag]
+        assert len(ms) == len(ch), (tag, len(ms), len(ch))
+        for (c, a, b, r), mv_ in zip(ch, ms):
+            nord += 1
+            dist[tag + "/O"] = dist.get(tag + "/O", 0) + 1
+            if a != b:
+                seen.add((tag, "O", a, b))
+            mr = from_coq_ord(t, mv_)
+            bad = check_ord(t, a, b, r)
+            if bad:
+                law, detail = bad[0]
+                mism.append(dict(case=c, impl=r, model=mr, spec=dict(join=s_join(t, a, b), meet=s_join(t, a, b, True), cmp=s_pcmp(t, a, b)),
+                                 kind="impl_violates_spec", known=known_class(tag, law), laws=[x[0] for x in bad],
+                                 what="%s: consumer of Ord: law %s fails for a = %s, b = %s: %s" % (rust_name(t), law, c["a"], c["b"], detail)))
+            elif mr is None or any(mr[k] != r[k] for k in mr):
+                mism.append(dict(case=c, impl=r, model=mr, spec=None, kind="model_differs", known=None,
+                                 what="correspondence Lattice/LatOrdOps.v ord_row (denote %s) vs the consumers of Ord on %s" % (coq_ty(t), rust_name(t))))
     npairs = sum(len(v) for v in pairs.values())
     some = [v for tag in ("dual_opt_prod", "bset2", "prod11") for v in list(pairs.get(tag, {}).values())[7:8]]
-    return dict(evaluations=npairs + len(triples) + len(tags), distinct_nontrivial=len(seen),
-                rule="pair rows: every ordered pair over the per-type carrier (exhaustive over small component carriers: ints MIN,-2..2,MAX at top level, -2..2 nested (thorough: -3..3); sets over {0,1,2} (top level) / {0,1} (nested) (thorough: {0..3} / {0,1,2}); all Option / ConstPropagation / BoundedSet shapes; sampled with neighbours + bottom/top when the product exceeds the cap); triple rows: all triples over a random sub-carrier; non-trivial = the arguments are pairwise distinct; distinct = distinct (type, arguments)",
+    return dict(evaluations=npairs + len(triples) + len(tags) + nord, distinct_nontrivial=len(seen),
+                rule="Ord rows (types that implement Ord: direct cmp both ways, Ord::max / min, max_by(cmp), sort_by(cmp), sort(), BTreeSet order, binary_search, clamp over the pair sorted by cmp - every ordered pair over the first 12 (thorough: 40) carrier values; oracle: each is what the order of the type says; model Lattice/LatOrdOps.v); pair rows: every ordered pair over the per-type carrier (exhaustive over small component carriers: ints MIN,-2..2,MAX at top level, -2..2 nested (thorough: -3..3); sets over {0,1,2} (top level) / {0,1} (nested) (thorough: {0..3} / {0,1,2}); all Option / ConstPropagation / BoundedSet shapes; sampled with neighbours + bottom/top when the product exceeds the cap); triple rows: all triples over a random sub-carrier; non-trivial = the arguments are pairwise distinct; distinct = distinct (type, arguments)",
                 samples=[dict(case=c, impl=r, model=model[(c["tag"], (dec_all(TYPES[c["tag"]], c["a"]), dec_all(TYPES[c["tag"]], c["b"])))]) for c, r in some],
-                distribution=dict(rows_by_type=dist, types={tag: rust_name(t) for tag, t in TYPES.items()}, pair_rows=npairs, triple_rows=len(triples), static_rows=len(tags)),
+                distribution=dict(rows_by_type=dist, types={tag: rust_name(t) for tag, t in TYPES.items()}, pair_rows=npairs, triple_rows=len(triples), static_rows=len(tags), ord_rows=nord),
                 mismatches=mism,
                 trusted_base=["harness/ds_lat (Rust, value parser/printer; BoundedSet read through its derived Debug output) + gen/props/c16.py renderers and the python order / lub / glb oracle",
                               "hand-written Gallina mirror Lattice/LatModel.v of ascent_base/src/lattice*.rs (tied by these runs, not verified)",
                               "Rust std: BTreeSet set semantics, derived PartialEq / PartialOrd / Ord of Option and tuples, Ord::min / Ord::max, Rc / Arc make_mut + try_unwrap ownership glue"],
                 assumptions=["integers are modelled as Z restricted to the type's range (no lattice operation performs arithmetic)",
                              "Set<T> / BoundedSet<N, T>: theorems for every element type of the syntax that implements Ord (canonical sorted lists); the tie exercises Set over i32, tuples, Option, Reverse, Dual and BoundedSet over i32 (its private field is read through Debug)",
-                             "tuple / Product arities: theorems cover every arity >= 1; the crate ships 1..11; the tie exercises 1, 2, 3, 11"])
+                             "tuple / Product arities: theorems cover every arity >= 1; the crate ships 1..11; the tie exercises 1, 2, 3, 11",
+                             "tuple lattices are exercised with Dual / Reverse / Option components at the first, a middle and the last position, nested, and under Dual / Reverse / Option / OrdLattice / Rc / Box / Set / Product"])
